@@ -246,6 +246,10 @@ def diagnose_time_order(case, ts):
 
 def crash_sig(case, ts, r):
     fl = input_flags(case)
+    if ts.num_mutations == 0:
+        fl.append("muts=0")
+    elif all(m.edge == -1 for m in ts.mutations()):
+        fl.append("muts-on-no-edge")
     if r["type"] == "LibraryError" and ("TSK_ERR_BAD_NODE_TIME_ORDERING" in r["msg"] or
                                         "A mutation's time must be <" in r["msg"] or "TSK_ERR_TIME_NONFINITE" in r["msg"]):
         fl += diagnose_time_order(case, ts)
@@ -272,6 +276,11 @@ def oracle(ctx, case, ts, r, explore=False):
             return
         if r["type"] == "TypeError" and foreign and "unexpected keyword" in r["msg"]:
             return          # Python's own rejection of a keyword the method does not have
+        if must and not foreign:
+            ctx.oracle_fail("invalid-not-rejected-cleanly|%s|%s|%s" % (",".join(must), r["type"], r["msg"][:50]),
+                            "invalid input %r (%s) must be rejected with ValueError/NotImplementedError but %s "
+                            "escaped: %s" % (shown, must, r["type"], r["msg"]), rp)
+            return
         ctx.oracle_fail(crash_sig(case, ts, r),
                         "%s escaped from %s: %s" % (r["type"], shown, r["msg"]), rp)
         return
@@ -306,7 +315,8 @@ def oracle(ctx, case, ts, r, explore=False):
 def make_pool(rng):
     pool = {}
     for kind, k in (("multi", 3), ("single", 2), ("nomut_multi", 1), ("nomut_single", 1),
-                    ("historical", 2), ("unary", 2)):
+                    ("historical", 2), ("unary", 2), ("sitesnomut_bare", 2), ("sitesnomut_cleared", 2),
+                    ("sitesnomut_subset", 2), ("rootmuts_only", 2), ("isolated_only", 2)):
         pool[kind] = [K.small_ts(rng, kind) for _ in range(k)]
     return pool
 
@@ -379,8 +389,8 @@ def corpus(ctx):
 
 def run(ctx, model_ok=True):
     corpus(ctx)
-    param_stream(ctx, ctx.n(1200, 6000), model_ok)
-    explore(ctx, ctx.n(400, 4000))
+    param_stream(ctx, ctx.n(900, 6000), model_ok)
+    explore(ctx, ctx.n(300, 4000))
 
 
 def search(ctx):
